@@ -131,6 +131,11 @@ def mixes():
     M['channel s + stream c gen'] = [dict(kind='channel', init='s', tag='A', down=2, up=2, pub='manual', credit='one'),
                                       dict(kind='stream', init='c', tag='B', down=3, pub='gen', credit='one')]
     M['stream agen c + fnf s'] = [dict(kind='stream', init='c', tag='A', down=3, pub='agen', credit='one'), dict(kind='fnf', init='s', tag='B')]
+    # "while a handler is running": the request-response handler coroutine is suspended inside the engine's receiver
+    M['slow handler rr c + stream c'] = [dict(kind='rr', init='c', tag='A', rr_mode='slow'), dict(kind='stream', init='c', tag='B', down=2, pub='manual', credit='one')]
+    M['slow handler rr s + channel c'] = [dict(kind='rr', init='s', tag='A', rr_mode='slow'), dict(kind='channel', init='c', tag='B', down=2, up=2, pub='manual', credit='one')]
+    M['stream c first, then slow handler rr c'] = [dict(kind='stream', init='c', tag='B', down=3, pub='manual', credit='one'), dict(kind='rr', init='c', tag='A', rr_mode='slow')]
+    M['channel s first, then slow handler rr c'] = [dict(kind='channel', init='s', tag='B', down=2, up=2, pub='manual', credit='one'), dict(kind='rr', init='c', tag='A', rr_mode='slow')]
     return M
 
 
